@@ -62,18 +62,20 @@ fn check_one(run: &Run, name: &str, f: &StreamFilter, x: &[u8]) {
 }
 
 fn structured(r: &mut Rng, kind: u64, n: usize) -> Vec<u8> {
-    match kind % 6 {
+    match kind % 7 {
         0 => r.bytes(n),
         1 => { let b = r.next_u64() as u8; vec![b; n] }
         2 => (0..n).map(|i| b"the quick brown fox jumps over the lazy dog\n"[i % 44]).collect(),
         3 => { let k = 1 + r.below(8) as usize; let a = r.bytes(k); (0..n).map(|i| a[i % a.len()]).collect() }
         4 => (0..n).map(|_| if r.below(10) == 0 { r.next_u64() as u8 } else { 0 }).collect(),
-        _ => { let mut v = Vec::new(); while v.len() < n { let b = r.next_u64() as u8; let k = 1 + r.below(300) as usize; v.extend(std::iter::repeat(b).take(k)); } v.truncate(n); v }
+        5 => { let mut v = Vec::new(); while v.len() < n { let b = r.next_u64() as u8; let k = 1 + r.below(300) as usize; v.extend(std::iter::repeat(b).take(k)); } v.truncate(n); v }
+        // long runs (zero most of the time) of any length and alignment, separated by a few other bytes
+        _ => { let mut v = Vec::new(); while v.len() < n { let b = if r.below(3) > 0 { 0 } else { r.next_u64() as u8 }; let k = match r.below(4) { 0 => 1 + r.below(8), 1 => 1000 + r.below(60), _ => r.below(9000) } as usize; v.extend(std::iter::repeat(b).take(k)); let t = r.below(6) as usize; v.extend(r.bytes(t)); } v.truncate(n); v }
     }
 }
 
 pub fn run(run: &Run) {
-    run.rule("inputs: all byte strings up to length L (L=2 quick, 3 thorough) + every byte value in runs of length 1..300 and selected lengths to 64KiB + seeded random/structured data up to 64KiB, x {ASCIIHex, ASCII85, LZW(EarlyChange 0), Flate}; oracle: decode(encode(x))==x and independent reference decoder (strict zlib for Flate) yields x; distinct_nontrivial = distinct (filter, input-hash) pairs with non-empty input");
+    run.rule("inputs: all byte strings up to length L (L=2 quick, 3 thorough) + every byte value in runs of length 1..300 and selected lengths to 64KiB + one long run (0x00, 0xff, 'z', 0x80) of length 2^e-3..2^e+4 (e=2..16) behind 0-3 lead-in bytes and before 1-5 trailing bytes + seeded random/structured data up to 64KiB, x {ASCIIHex, ASCII85, LZW(EarlyChange 0), Flate}; oracle: decode(encode(x))==x and independent reference decoder (strict zlib for Flate) yields x; distinct_nontrivial = distinct (filter, input-hash) pairs with non-empty input");
     run.assume("reference decoders in harness/src/refimpl/codec.rs are correct (self-tested against own encoders and miniz_oxide)");
     let fs = filters();
     // exhaustive small lengths
@@ -105,6 +107,24 @@ pub fn run(run: &Run) {
             }
         });
     }
+    // one long run at every alignment, ended by other bytes: lead-in of 0-3 bytes, run length around every power of two up to 64 KiB, 1-5 trailing bytes
+    let mut run_lens: Vec<usize> = Vec::new();
+    for e in 2..=16u32 { let p = 1usize << e; for d in 0..8 { run_lens.push(p - 3 + d); } }
+    run_lens.extend([1000, 1001, 1002, 1003, 3000, 3001, 3002, 3003, 10000, 10001, 10002, 10003]);
+    if run.quick() { run_lens.retain(|l| *l < 5000 || l % 5 == 0); }
+    for (name, f) in &fs {
+        par_for(run_lens.len() as u64, |k| {
+            let l = run_lens[k as usize];
+            for b in [0u8, 0xff, b'z', 0x80] { for lead in 0..4usize { for tail in [1usize, 2, 3, 5] {
+                let mut x: Vec<u8> = (0..lead).map(|i| 0x31 + i as u8).collect();
+                x.extend(std::iter::repeat(b).take(l));
+                x.extend((0..tail).map(|i| 0x41 + i as u8));
+                check_one(run, name, f, &x);
+                run.nontrivial(fnv(&x) ^ fnv(name.as_bytes()));
+                run.count("aligned_run_cases");
+            } } }
+        });
+    }
     // random / structured
     let n = run.n(3000, 200_000);
     par_for(n, |i| {
@@ -116,7 +136,7 @@ pub fn run(run: &Run) {
             if !x.is_empty() { run.nontrivial(fnv(&x) ^ fnv(name.as_bytes())); }
             run.count(&format!("{}:{}", name, size_class(x.len())));
         }
-        if i < 4 { run.sample(json!({"input": show(&x[..x.len().min(48)]), "len": x.len(), "kind": i % 6})); }
+        if i < 4 { run.sample(json!({"input": show(&x[..x.len().min(48)]), "len": x.len(), "kind": i % 7})); }
     });
     // thorough: the same quick workload once more under the AddressSanitizer build (memory errors in the library or its dependencies)
     if !run.quick() { crate::lanes::asan_rerun(run); }
